@@ -2,7 +2,7 @@
    A case = (class, URL shape, method, caller level, JSON content type sent?, what the real application did).
    bad_model: indices where the model over the regenerated tables predicts something else (tie);
    bad_spec : indices where the real application contradicts the hand-written specification (violation). *)
-From QT Require Export C09.Model C09.SpecRun.
+From QT Require Export C09.Model C09.SpecRun C09.Events.
 From QT Require Import Gen.C09Gen.
 Open Scope string_scope.
 Open Scope Z_scope.
@@ -44,3 +44,6 @@ Definition bad_routing (tmpls : list string) (sets : list (list string * list st
   mismatches (fun p : list string * list string =>
                 list_eqb String.eqb (map (model_handler (fst p)) tmpls) (snd p))
              sets 0.
+
+Definition bad_events_model (cs : list evcase) : list nat :=
+  mismatches (fun x : evcase => let '(s, c, o) := x in events_model_ok s c o) cs 0.
